@@ -72,6 +72,8 @@ impl DNSIterable for QuestionIterator<'_> {
     }
 
     fn next(mut self) -> Option<Self> {
+        #[cfg(dnssector_verif)]
+        crate::verif::tick(crate::verif::SITE_ITER_NEXT);
         {
             let rr_iterator = &mut self.rr_iterator;
             debug_assert_eq!(rr_iterator.section, Section::Question);
